@@ -58,10 +58,10 @@ def classify(prog, ev):
         cls.append("dt-" + s["dt"])
         if ev["e"] == "RdFsr" and ev.get("rc", 0) != 0 and 0 < L < nsdf:
             cls.append("shorter-than-entry")
-        if ev["e"] == "RdLength" and L % nspd != 0 and (bits <= 8 or "omit" in prog.get("feat", [])) and ev.get("len", -1) == L - (L % nspd if (L % nspd) < nsdf or True else 0):
+        if (ev["e"] == "RdLength" and L % nspd != 0 and L % nsdf != 0 and ev.get("len", -1) == L - (L % nsdf)
+                and (bits <= 8 or "omit" in prog.get("feat", []))):
+            # the final partial block was omitted: only its whole summary entries count
             cls.append("omitted-final-partial-block")
-        if ev["e"] == "RdLength" and 0 < L and ev.get("len", -1) != L and (L % nspd) != 0 and (L % nspd) < nsdf and (L // nspd) % max(1, (s["norm"][2] // (nspd // nsdf))) == 0:
-            cls.append("short-tail-after-full-summary")
     return cls
 
 
@@ -124,3 +124,6 @@ for _r in ("conversion without any UTC entry succeeded", "conversion failed alth
            "time -> sample id is not the inverse of sample id -> time within one sample"):
     REASON_PROP[_r] = "C12"
 REASON_PROP["conversion on an undefined or non-FSR signal"] = "C10"
+for _r in ("stored summaries differ between omission on and off", "the first block of a signal was omitted",
+           "omitted blocks differ from the documented one-block delay"):
+    REASON_PROP[_r] = "C15"
